@@ -68,7 +68,7 @@ Proof.
 Qed.
 
 (* ---------------------------------------------------------------- no captured bytes *)
-Ltac nors := intros h r l rsv r' H; cbv beta delta [dec_ftyp dec_free dec_empty dec_b4 dec_mfhd dec_tfhd dec_tfdt dec_trun dec_trex dec_stts
+Ltac nors := intros h r l rsv r' H; cbv beta delta [dec_ftyp dec_free dec_empty dec_b4 dec_mime dec_data dec_mfhd dec_tfhd dec_tfdt dec_trun dec_trex dec_stts
   dec_stsc dec_stsz dec_tab dec_sdtp dec_ctts dec_elst dec_saiz dec_saio dec_sbgp dec_prft dec_frma dec_vmhd dec_fullonly
   dec_mfro dec_mehd dec_pssh dec_url dec_btrt dec_pasp dec_clap dec_schm dec_cslg dec_senc dec_emsg dec_kind dec_stsd dec_dref
   dec_subs] in H;
@@ -78,6 +78,8 @@ Lemma norsv_ftyp : norsv dec_ftyp. Proof. nors. Qed.
 Lemma norsv_free : norsv dec_free. Proof. nors. Qed.
 Lemma norsv_empty : norsv dec_empty. Proof. nors. Qed.
 Lemma norsv_b4 : norsv dec_b4. Proof. nors. Qed.
+Lemma norsv_mime : norsv dec_mime. Proof. nors. Qed.
+Lemma norsv_data : norsv dec_data. Proof. nors. Qed.
 Lemma norsv_mfhd : norsv dec_mfhd. Proof. nors. Qed.
 Lemma norsv_tfhd : norsv dec_tfhd. Proof. nors. Qed.
 Lemma norsv_tfdt : norsv dec_tfdt. Proof. nors. Qed.
@@ -161,6 +163,16 @@ Lemma psized_free : psized dec_free.
 Proof. intros h r l rsv r' Hok Hnm H. unfold dec_free in H. run H. inj_pret H. cbn [leaf_size_guard]. eq4. Qed.
 Lemma psized_empty : psized dec_empty.
 Proof. intros h r l rsv r' Hok Hnm H. unfold dec_empty in H. inj_pret H. cbn [leaf_size_guard]. eq4. Qed.
+Lemma psized_data : psized dec_data.
+Proof. intros h r l rsv r' Hok Hnm H. unfold dec_data in H. run H. inj_pret H. reflexivity. Qed.
+Lemma psized_mime : psized dec_mime.
+Proof. intros h r l rsv r' Hok Hnm H. unfold dec_mime in H. run H; inj_pret H; reflexivity. Qed.
+Lemma psized_wvtt : psized dec_wvtt.
+Proof.
+  intros h r l rsv r' Hok Hnm H. unfold dec_wvtt in H.
+  destruct (rdB 6 r) as [[r6 r1]| | |]; [destruct (rd 2 r1) as [[dri r2]| | |]|..];
+    try (destruct (16 <? h_size h); [discriminate H|]); injection H as <- _ _; reflexivity.
+Qed.
 Lemma psized_b4 : psized dec_b4.
 Proof. intros h r l rsv r' Hok Hnm H. unfold dec_b4 in H. run H. inj_pret H. cbn [leaf_size_guard]. eq4. Qed.
 Lemma psized_frma : psized dec_frma.
@@ -858,13 +870,30 @@ Proof. apply pre_stable_of_local; [exact lossless_stsd|exact local_stsd|exact no
 Lemma pstable_dref : pre_stable dec_dref.
 Proof. apply pre_stable_of_local; [exact lossless_dref|exact local_dref|exact norsv_dref|exact psized_dref]. Qed.
 
+Lemma stable_data : leaf_stable dec_data. Proof. sol lossless_data local_data norsv_data psized_data. Qed.
+Lemma stable_mime : leaf_stable dec_mime. Proof. sol lossless_mime local_mime norsv_mime psized_mime. Qed.
+(* wvtt prefix: a box whose prefix was read (leaf_guard) is re-read from the encoder's bytes *)
+Lemma pstable_wvtt : pre_stable dec_wvtt.
+Proof.
+  intros h r l rsv r' Hok Hnm H G. pose proof (psized_wvtt _ _ _ _ _ Hok Hnm H) as Hg. unfold dec_wvtt in H.
+  destruct (rdB 6 r) as [[r6 r1]| | |] eqn:E6;
+    [|destruct (16 <? h_size h); [discriminate|]; injection H as <- <- <-; discriminate G..].
+  destruct (rdB_spec _ _ _ _ Hok E6) as (-> & Hl6 & _ & Hok1).
+  destruct (rd 2 r1) as [[dri r2]| | |] eqn:E2;
+    [|destruct (16 <? h_size h); [discriminate|]; injection H as <- <- <-; discriminate G..].
+  injection H as <- <- <-. destruct (rd_spec _ _ _ _ Hok1 E2) as (-> & Hlt & Hok2). unfold stable_concl.
+  eexists. split; [cbn [body_leaf dflt_rsv chunk nth]; reflexivity|].
+  split; [lensolve|]. split; [apply body_size; [reflexivity|exact Hg]|].
+  intros r3. unfold dec_wvtt. repeat rewrite <- app_assoc. rp. reflexivity.
+Qed.
+
 Lemma pstable_fullonly : pre_stable dec_fullonly.
 Proof. apply pre_stable_of_local; [exact lossless_fullonly|exact local_fullonly|exact norsv_fullonly|exact psized_fullonly]. Qed.
 
 Lemma leaf_table_stable : Forall (fun e => leaf_stable (snd e)) leaf_table.
 Proof.
   unfold leaf_table. repeat apply Forall_cons; try apply Forall_nil; cbn [snd];
-    first [ exact stable_ftyp | exact stable_free | exact stable_empty | exact stable_b4 | exact stable_mdat | exact stable_mfhd | exact stable_tfhd
+    first [ exact stable_ftyp | exact stable_free | exact stable_empty | exact stable_b4 | exact stable_data | exact stable_mime | exact stable_mdat | exact stable_mfhd | exact stable_tfhd
           | exact stable_tfdt | exact stable_trun | exact (pre_leaf_stable _ pstable_mvhd)
           | exact (pre_leaf_stable _ pstable_tkhd) | exact (pre_leaf_stable _ pstable_sidx) | exact stable_trex
           | exact (pre_leaf_stable _ pstable_mdhd) | exact (pre_leaf_stable _ pstable_hdlr) | exact stable_stts
@@ -881,5 +910,5 @@ Qed.
 Lemma pre_table_stable : Forall (fun e => pre_stable (fst (snd e))) pre_table.
 Proof.
   unfold pre_table. repeat apply Forall_cons; try apply Forall_nil; cbn [fst snd];
-    first [ exact pstable_stsd | exact pstable_dref | exact pstable_visual | exact pstable_audio | exact pstable_fullonly ].
+    first [ exact pstable_stsd | exact pstable_dref | exact pstable_visual | exact pstable_audio | exact pstable_fullonly | exact pstable_wvtt ].
 Qed.
